@@ -148,11 +148,11 @@ fn oracle_inner(ctx: &mut Ctx, m: &Movie) -> Check {
 pub fn run(ctx: &mut Ctx) {
     ctx.stage("random-small");
     let cases = ctx.pick(400_000u32, 3_000_000u32) / ctx.nshards;
-    ctx.run_prop(gen::frag_movie(3, 4, 4), cases, |ctx, m| oracle(ctx, m));
+    ctx.run_prop(gen::with_big_sample(gen::frag_movie(3, 4, 4), 0.01), cases, |ctx, m| oracle(ctx, m));
     ctx.stage("random-large");
     let cases = ctx.pick(30_000u32, 200_000u32) / ctx.nshards;
     let (mf, mr) = ctx.pick((8usize, 12usize), (30usize, 200usize));
-    ctx.run_prop(gen::frag_movie(4, mf, mr), cases, |ctx, m| oracle(ctx, m));
+    ctx.run_prop(gen::with_big_sample(gen::frag_movie(4, mf, mr), 0.03), cases, |ctx, m| oracle(ctx, m));
 }
 
 pub fn replay(ctx: &mut Ctx, _stage: &str, case: &Value) -> Check {
